@@ -1414,6 +1414,22 @@ PathCases == [k \in 1..12 |-> LET set == [container |-> ((k - 1) \div 6) = 1, pr
                                   kind == <<"long", "short", "abs">>[((k - 1) % 3) + 1]
                               IN [container |-> set.container, prefix |-> set.prefix, name |-> kind, same |-> SamePath(set, kind)]]
 
+\* Names that begin with the characters of the prefix.  A name is a sequence of atoms: "P" = the prefix string, "x" = a stem
+\* (rendered so that every name is relative and has more than 2 characters: both directions prepend container and
+\* prefix, whatever the name begins with).  A path = atoms of the container, of the prefix, of the name; two paths are
+\* the same file iff the sequences are equal.  A SESSION under one setting writes a distinct object under each name of
+\* the family (x, Px, PPx, P), then reads each name back: the file system keeps, per path, the last object written.
+\* LAW: createFromNF(name) gives back the object that dumpToNF(name) wrote -- not nothing, not the object of another name.
+PfxNames == << <<"x">>, <<"P", "x">>, <<"P", "P", "x">>, <<"P">> >>
+PathAtoms(status, set, atoms) == LET parts == PathParts(status, set, "long") IN
+  (IF parts[1] THEN <<"C/">> ELSE <<>>) \o (IF parts[2] THEN <<"P">> ELSE <<>>) \o atoms
+FSGet(set, names, path) == LET W == {i \in DOMAIN names : PathAtoms(2, set, names[i]) = path} IN
+                           IF W = {} THEN 0 ELSE CHOOSE i \in W : \A i2 \in W : i >= i2
+SessionReads(set, names) == [i \in DOMAIN names |-> FSGet(set, names, PathAtoms(1, set, names[i]))]
+PathSessions == [k \in 1..4 |-> LET set == [container |-> ((k - 1) \div 2) = 1, prefix |-> ((k - 1) % 2) = 1] IN
+                   [container |-> set.container, prefix |-> set.prefix, names |-> PfxNames, reads |-> SessionReads(set, PfxNames)]]
+PathSessionLaw == \A k \in DOMAIN PathSessions : \A i \in DOMAIN PfxNames : PathSessions[k].reads[i] = i
+
 -----------------------------------------------------------------------------
 (* C09: fault layer.  From a valid file L (sequence of lines of tokens):     *)
 (*   trunc(k)      the first k tokens only (interrupted write)                *)
